@@ -91,10 +91,18 @@ def run(ctx):
             ctx.case(("rsampler", sps % 2, k == 0, k == sps - 1, noise is not None, sh))
     # ---- Gaussian: the three observables + SAMPLER at sps//2
     grid = [8, 9, 16, 17, 32, 33, 64, 128] if not T else [8, 9, 10, 11, 16, 17, 31, 32, 33, 63, 64, 100, 127, 128]
-    for sps in grid:
+    for gi_, sps in enumerate(grid):
         with warnings.catch_warnings():
             warnings.simplefilter("ignore")
-            gv(sps=sps, R=1e9)
+            # the same grid reached through the three ways of configuring it (sps given; derived from fs and R; derived from fs and the R in force)
+            if gi_ % 3 == 0:
+                gv(sps=sps, R=1e9)
+            elif gi_ % 3 == 1:
+                gv(R=1e9, fs=sps * 1e9)
+            else:
+                gv(sps=4, R=1e9); gv(fs=sps * 1e9)
+        if gv.sps != sps:
+            raise RuntimeError("grid configuration")
         Ts = sorted({(sps + 1) // 2, sps // 2 + 1, sps, (3 * sps) // 2, 2 * sps} | ({rnd.randrange((sps + 1) // 2, 2 * sps + 1)} if T else set()))
         for Tw in Ts:
             for m in (1, 2, 3, 4):
